@@ -12,3 +12,408 @@ Proof.
   rewrite andb_true_r in H.
   destruct (is_failure r1) eqn:E1; inversion H; subst; [reflexivity | congruence].
 Qed.
+
+(* ---- boolean equalities are sound --------------------------------------------- *)
+Lemma kind_eqb_eq a b : kind_eqb a b = true -> a = b.
+Proof. destruct a, b; simpl; congruence. Qed.
+Lemma eclass_eqb_eq a b : eclass_eqb a b = true -> a = b.
+Proof. destruct a, b; simpl; congruence. Qed.
+Lemma list_eqb_eq {A} (eqb : A -> A -> bool) (H : forall x y, eqb x y = true -> x = y) :
+  forall a b, list_eqb eqb a b = true -> a = b.
+Proof.
+  induction a as [|x a IH]; destruct b as [|y b]; simpl; intro E; try reflexivity; try discriminate.
+  apply andb_true_iff in E. destruct E as [E1 E2]. f_equal; auto.
+Qed.
+Lemma pair_eqb_eq {A B} (ea : A -> A -> bool) (eb : B -> B -> bool)
+  (Ha : forall x y, ea x y = true -> x = y) (Hb : forall x y, eb x y = true -> x = y) :
+  forall x y, pair_eqb ea eb x y = true -> x = y.
+Proof.
+  intros [a b] [a' b']; unfold pair_eqb; simpl; intro E.
+  apply andb_true_iff in E. destruct E. f_equal; auto.
+Qed.
+Lemma option_eqb_eq {A} (eqb : A -> A -> bool) (H : forall x y, eqb x y = true -> x = y) :
+  forall a b, option_eqb eqb a b = true -> a = b.
+Proof. intros [x|] [y|]; simpl; intro E; try discriminate; try reflexivity. f_equal; auto. Qed.
+Lemma str_eqb_eq x y : String.eqb x y = true -> x = y.
+Proof. apply String.eqb_eq. Qed.
+Lemma nat_eqb_eq x y : Nat.eqb x y = true -> x = y.
+Proof. apply Nat.eqb_eq. Qed.
+Lemma N_eqb_eq x y : N.eqb x y = true -> x = y.
+Proof. apply N.eqb_eq. Qed.
+Lemma Z_eqb_eq x y : Z.eqb x y = true -> x = y.
+Proof. apply Z.eqb_eq. Qed.
+Lemma path_eqb_eq a b : path_eqb a b = true -> a = b.
+Proof. apply list_eqb_eq, str_eqb_eq. Qed.
+
+Lemma node_eqb_eq a b : node_eqb a b = true -> a = b.
+Proof.
+  destruct a as [k1 p1 u1 g1 d1 m1 t1 v1 x1 c1], b as [k2 p2 u2 g2 d2 m2 t2 v2 x2 c2]; unfold node_eqb; simpl.
+  intro E.
+  apply andb_true_iff in E; destruct E as [E Ec]. apply andb_true_iff in E; destruct E as [E Ex].
+  apply andb_true_iff in E; destruct E as [E Ev]. apply andb_true_iff in E; destruct E as [E Et].
+  apply andb_true_iff in E; destruct E as [E Em]. apply andb_true_iff in E; destruct E as [E Ed].
+  apply andb_true_iff in E; destruct E as [E Eg]. apply andb_true_iff in E; destruct E as [E Eu].
+  apply andb_true_iff in E; destruct E as [Ek Ep].
+  apply kind_eqb_eq in Ek. apply N_eqb_eq in Ep. apply Z_eqb_eq in Eu. apply Z_eqb_eq in Eg.
+  apply (list_eqb_eq _ N_eqb_eq) in Ed. apply (option_eqb_eq _ Z_eqb_eq) in Em.
+  apply path_eqb_eq in Et. apply N_eqb_eq in Ev.
+  apply (list_eqb_eq _ (pair_eqb_eq _ _ str_eqb_eq (list_eqb_eq _ N_eqb_eq))) in Ex.
+  apply (list_eqb_eq _ (pair_eqb_eq _ _ str_eqb_eq nat_eqb_eq)) in Ec.
+  congruence.
+Qed.
+Lemma heap_eqb_eq a b : heap_eqb a b = true -> a = b.
+Proof. apply list_eqb_eq, node_eqb_eq. Qed.
+Lemma eres_nat_eqb_eq a b : eres_nat_eqb a b = true -> a = b.
+Proof.
+  destruct a, b; simpl; intro E; try discriminate.
+  - apply nat_eqb_eq in E; congruence.
+  - apply eclass_eqb_eq in E; congruence.
+Qed.
+Lemma leaf_eqb_eq a b : leaf_eqb a b = true -> a = b.
+Proof.
+  destruct a as [[[p1 n1] c1]|e1], b as [[[p2 n2] c2]|e2]; simpl; intro E; try discriminate.
+  - apply andb_true_iff in E. destruct E as [E E3]. apply andb_true_iff in E. destruct E as [E1 E2].
+    apply nat_eqb_eq in E1. apply str_eqb_eq in E2. apply (option_eqb_eq _ nat_eqb_eq) in E3. congruence.
+  - apply eclass_eqb_eq in E; congruence.
+Qed.
+Lemma opened_eqb_eq a b : opened_eqb a b = true -> a = b.
+Proof.
+  destruct a, b; simpl; intro E; try discriminate.
+  - apply eclass_eqb_eq in E; congruence.
+  - apply andb_true_iff in E. destruct E as [E1 E2]. apply heap_eqb_eq in E1. apply nat_eqb_eq in E2. congruence.
+Qed.
+Lemma mkdirall_eqb_eq a b : mkdirall_eqb a b = true -> a = b.
+Proof.
+  destruct a, b; unfold mkdirall_eqb; simpl; intro E. apply andb_true_iff in E. destruct E as [E1 E2].
+  apply heap_eqb_eq in E1. apply (option_eqb_eq _ eclass_eqb_eq) in E2. congruence.
+Qed.
+
+(* ---- reading the envelope ----------------------------------------------------- *)
+Lemma first_corner_none : forall l, first_corner l = None -> Forall (fun x => fst x = true) l.
+Proof.
+  unfold first_corner. induction l as [|[c t] l IH]; simpl; intro H; constructor.
+  - simpl. destruct c; [reflexivity | simpl in H; discriminate].
+  - apply IH. destruct c; simpl in H; [exact H | discriminate].
+Qed.
+Lemma E_clauses : forall b s o, E b s o = true -> Forall (fun x => fst x = true) (corners b s o).
+Proof.
+  intros b s o H. apply first_corner_none. unfold E, corner in H.
+  destruct (first_corner (corners b s o)); [discriminate | reflexivity].
+Qed.
+
+Ltac clauses H :=
+  repeat match type of H with
+         | Forall _ (_ :: _) => let H1 := fresh "C" in let H2 := fresh "H" in
+                                inversion H as [|? ? H1 H2]; subst; clear H; cbn [fst] in H1; rename H2 into H
+         | Forall _ (_ ++ _) => apply Forall_app in H; let H1 := fresh "H" in destruct H as [H1 H]
+         end.
+Lemma node_ops_agree : forall b s p (k : nat -> st * out),
+  Forall (fun x => fst x = true) (node_corner b (heap s) p) ->
+  with_node b s p k = s_with_node s p k.
+Proof.
+  intros b s p k H. unfold node_corner in H. clauses H.
+  apply eres_nat_eqb_eq in C1. unfold with_node, s_with_node. rewrite C1. reflexivity.
+Qed.
+
+Lemma leaf_ops_agree : forall b s p pn (k : nat -> string -> option nat -> st * out),
+  Forall (fun x => fst x = true) (leaf_corner b (heap s) p pn) ->
+  with_leaf b s p k = s_with_leaf s p k /\
+  (pn = true -> forall pi nm c, s_leaf (heap s) p = inl (pi, nm, c) -> is_dir (heap s) pi = true).
+Proof.
+  intros b s p pn k H. unfold leaf_corner in H. clauses H.
+  apply leaf_eqb_eq in C2. split.
+  - unfold with_leaf, s_with_leaf. rewrite C2. reflexivity.
+  - intros Hp pi nm c Hs. rewrite C2, Hs in C0. subst pn. rewrite andb_true_r in C0.
+    destruct (is_dir (heap s) pi); [reflexivity | discriminate].
+Qed.
+
+Lemma refine_mkdir : forall b s p perm, E b s (Mkdir p perm) = true ->
+  model_step b s (Mkdir p perm) = spec_raw s (Mkdir p perm).
+Proof.
+  intros b s p perm H. apply E_clauses in H. cbn [corners] in H.
+  cbn [model_step spec_raw]. apply (leaf_ops_agree b s p false). exact H.
+Qed.
+
+Lemma enter_new_agree : forall s pi nm c mk, (c = None -> is_dir (heap s) pi = true) ->
+  enter_new s pi nm c mk = s_enter_new s pi nm c mk.
+Proof.
+  intros s pi nm c mk H. unfold enter_new, s_enter_new. destruct c; [reflexivity|].
+  rewrite (H eq_refl). reflexivity.
+Qed.
+
+Lemma refine_entry : forall b s p mk, 
+  Forall (fun x => fst x = true) (leaf_corner b (heap s) p true) ->
+  with_leaf b s p (fun pi base c => enter_new s pi base c (mk pi base)) =
+  s_with_leaf s p (fun pi nm c => s_enter_new s pi nm c (mk pi nm)).
+Proof.
+  intros b s p mk H.
+  destruct (leaf_ops_agree b s p true (fun pi base c => enter_new s pi base c (mk pi base)) H) as [H1 H2].
+  rewrite H1. unfold s_with_leaf. destruct (s_leaf (heap s) p) as [[[pi nm] c]|e] eqn:Es; [|reflexivity].
+  apply enter_new_agree. intros _. apply (H2 eq_refl pi nm c eq_refl).
+Qed.
+
+Lemma refine_symlink : forall b s t p, E b s (Symlink t p) = true ->
+  model_step b s (Symlink t p) = spec_raw s (Symlink t p).
+Proof.
+  intros b s t p H. apply E_clauses in H. cbn [corners] in H. cbn [model_step spec_raw].
+  apply (refine_entry b s p (fun pi base h => fst (create h pi base (mkNode KSym 511%N 0%Z 0%Z [] None t 0%N [] [])))). exact H.
+Qed.
+Lemma refine_mknod : forall b s p perm dev, E b s (Mknod p perm dev) = true ->
+  model_step b s (Mknod p perm dev) = spec_raw s (Mknod p perm dev).
+Proof.
+  intros b s p perm dev H. apply E_clauses in H. cbn [corners] in H. cbn [model_step spec_raw].
+  apply (refine_entry b s p (fun pi base h => fst (create h pi base (mkNode KDev perm 0%Z 0%Z [] None [] dev [] [])))). exact H.
+Qed.
+
+Lemma refine_link : forall b s old new, E b s (Link old new) = true ->
+  model_step b s (Link old new) = spec_raw s (Link old new).
+Proof.
+  intros b s old new H. apply E_clauses in H. cbn [corners] in H. cbn [model_step spec_raw].
+  apply Forall_app in H. destruct H as [H1 H]. clauses H.
+  apply eres_nat_eqb_eq in C2.
+  destruct (leaf_ops_agree b s new true (fun pi base c =>
+        match get_node b (heap s) old with
+        | inr _ => (s, OErr ENotExist)
+        | inl t => enter_new s pi base c (fun h => add_child h pi base t)
+        end) H1) as [A1 A2].
+  rewrite A1. unfold s_with_leaf. destruct (s_leaf (heap s) new) as [[[pi nm] c]|e] eqn:Es; [|reflexivity].
+  rewrite C2 in *. destruct (s_node (heap s) old) as [t|e] eqn:En.
+  - destruct (is_dir (heap s) t); [discriminate|]. apply enter_new_agree. intros _. apply (A2 eq_refl pi nm c eq_refl).
+  - destruct e; try discriminate. reflexivity.
+Qed.
+
+Lemma refine_leaf_simple : forall b s o p,
+  (corners b s o = leaf_corner b (heap s) p false) ->
+  forall k, model_step b s o = with_leaf b s p k -> spec_raw s o = s_with_leaf s p k ->
+  E b s o = true -> model_step b s o = spec_raw s o.
+Proof.
+  intros b s o p Hc k Hm Hs H. apply E_clauses in H. rewrite Hc in H. rewrite Hm, Hs.
+  apply (leaf_ops_agree b s p false). exact H.
+Qed.
+
+Lemma refine_readlink : forall b s p, E b s (Readlink p) = true ->
+  model_step b s (Readlink p) = spec_raw s (Readlink p).
+Proof. intros b s p. eapply refine_leaf_simple; reflexivity. Qed.
+Lemma refine_readnod : forall b s p, E b s (Readnod p) = true ->
+  model_step b s (Readnod p) = spec_raw s (Readnod p).
+Proof. intros b s p. eapply refine_leaf_simple; reflexivity. Qed.
+
+Lemma refine_remove : forall b s p, E b s (Remove p) = true ->
+  model_step b s (Remove p) = spec_raw s (Remove p).
+Proof.
+  intros b s p H. apply E_clauses in H. cbn [corners] in H. cbn [model_step spec_raw].
+  apply Forall_app in H. destruct H as [H1 H]. clauses H.
+  destruct (leaf_ops_agree b s p false (fun pi base c =>
+        match c with
+        | None => (s, OErr ENotExist)
+        | Some _ => (seth s (del_child (heap s) pi base), OOk)
+        end) H1) as [A1 _].
+  rewrite A1. unfold s_with_leaf. destruct (s_leaf (heap s) p) as [[[pi nm] [c|]]|e] eqn:Es; try reflexivity.
+  unfold nonempty in C. destruct (is_dir (heap s) c); [|reflexivity].
+  destruct (n_children (get (heap s) c)); [reflexivity | discriminate].
+Qed.
+
+Lemma refine_node_simple : forall b s o p,
+  (corners b s o = node_corner b (heap s) p) ->
+  forall k, model_step b s o = with_node b s p k -> spec_raw s o = s_with_node s p k ->
+  E b s o = true -> model_step b s o = spec_raw s o.
+Proof.
+  intros b s o p Hc k Hm Hs H. apply E_clauses in H. rewrite Hc in H. rewrite Hm, Hs.
+  apply node_ops_agree. exact H.
+Qed.
+Lemma refine_readdir : forall b s p, E b s (ReadDir p) = true -> model_step b s (ReadDir p) = spec_raw s (ReadDir p).
+Proof. intros b s p. eapply refine_node_simple; reflexivity. Qed.
+Lemma refine_stat : forall b s p, E b s (Stat p) = true -> model_step b s (Stat p) = spec_raw s (Stat p).
+Proof. intros b s p. eapply refine_node_simple; reflexivity. Qed.
+Lemma refine_chmod : forall b s p m, E b s (Chmod p m) = true -> model_step b s (Chmod p m) = spec_raw s (Chmod p m).
+Proof. intros b s p m. eapply refine_node_simple; reflexivity. Qed.
+Lemma refine_chown : forall b s p u g, E b s (Chown p u g) = true -> model_step b s (Chown p u g) = spec_raw s (Chown p u g).
+Proof. intros b s p u g. eapply refine_node_simple; reflexivity. Qed.
+Lemma refine_chtimes : forall b s p t, E b s (Chtimes p t) = true -> model_step b s (Chtimes p t) = spec_raw s (Chtimes p t).
+Proof. intros b s p t. eapply refine_node_simple; reflexivity. Qed.
+
+Lemma refine_lstat : forall b s p, E b s (Lstat p) = true -> model_step b s (Lstat p) = spec_raw s (Lstat p).
+Proof.
+  intros b s p H. apply E_clauses in H. cbn [corners] in H. cbn [model_step spec_raw].
+  apply Forall_app in H. destruct H as [H1 H]. clauses H1. apply eres_nat_eqb_eq in C0.
+  rewrite (node_ops_agree b s p _ H). unfold s_with_node. rewrite C0. reflexivity.
+Qed.
+
+Lemma xattr_ops_agree : forall b s p (k : nat -> st * out),
+  Forall (fun x => fst x = true)
+    ([ (clean_path p, t_path);
+       (match s_node (heap s) p with inr ENotExist => true | inr _ => false | inl _ => true end,
+        "xattr-lookup-error-always-notexist") ] ++ node_corner b (heap s) p) ->
+  with_node_ne b s p k = s_with_node s p k.
+Proof.
+  intros b s p k H. apply Forall_app in H. destruct H as [H1 H]. clauses H1.
+  unfold node_corner in H. clauses H. apply eres_nat_eqb_eq in C3.
+  unfold with_node_ne, s_with_node. rewrite C3.
+  destruct (s_node (heap s) p) as [i|e]; [reflexivity|]. destruct e; try discriminate. reflexivity.
+Qed.
+Lemma refine_setxattr : forall b s p a v, E b s (SetXattr p a v) = true -> model_step b s (SetXattr p a v) = spec_raw s (SetXattr p a v).
+Proof. intros b s p a v H. apply E_clauses in H. cbn [corners] in H. cbn [model_step spec_raw]. apply xattr_ops_agree, H. Qed.
+Lemma refine_getxattr : forall b s p a, E b s (GetXattr p a) = true -> model_step b s (GetXattr p a) = spec_raw s (GetXattr p a).
+Proof. intros b s p a H. apply E_clauses in H. cbn [corners] in H. cbn [model_step spec_raw]. apply xattr_ops_agree, H. Qed.
+Lemma refine_removexattr : forall b s p a, E b s (RemoveXattr p a) = true -> model_step b s (RemoveXattr p a) = spec_raw s (RemoveXattr p a).
+Proof. intros b s p a H. apply E_clauses in H. cbn [corners] in H. cbn [model_step spec_raw]. apply xattr_ops_agree, H. Qed.
+Lemma refine_listxattrs : forall b s p, E b s (ListXattrs p) = true -> model_step b s (ListXattrs p) = spec_raw s (ListXattrs p).
+Proof. intros b s p H. apply E_clauses in H. cbn [corners] in H. cbn [model_step spec_raw]. apply xattr_ops_agree, H. Qed.
+
+(* ---- handles --------------------------------------------------------------------- *)
+Lemma handle_clauses : forall s i f hd,
+  nth_error (handles s) i = Some hd -> h_open hd = true ->
+  Forall (fun x => fst x = true) (handle_corner s i f) -> Forall (fun x => fst x = true) (f hd).
+Proof. intros s i f hd H1 H2 H. unfold handle_corner in H. rewrite H1, H2 in H. exact H. Qed.
+
+Lemma refine_read : forall b s i n, E b s (Read i n) = true -> model_step b s (Read i n) = spec_raw s (Read i n).
+Proof.
+  intros b s i n H. apply E_clauses in H. cbn [corners] in H. cbn [model_step spec_raw].
+  unfold with_handle. destruct (nth_error (handles s) i) as [hd|] eqn:En; [|reflexivity].
+  destruct (h_open hd) eqn:Eo; [|reflexivity].
+  apply (handle_clauses s i _ hd En Eo) in H. cbv beta in H. clauses H.
+  rewrite C. cbn [negb]. apply negb_true_iff in C0, C1, C2. rewrite C0, C1.
+  destruct (h_off hd >=? blen (n_data (get (heap s) (h_ino hd))))%Z eqn:Ee.
+  - rewrite andb_true_r in C2. rewrite C2. reflexivity.
+  - rewrite andb_false_r. reflexivity.
+Qed.
+Lemma refine_readat : forall b s i n off, E b s (ReadAt i n off) = true -> model_step b s (ReadAt i n off) = spec_raw s (ReadAt i n off).
+Proof.
+  intros b s i n off H. apply E_clauses in H. cbn [corners] in H. cbn [model_step spec_raw].
+  unfold with_handle. destruct (nth_error (handles s) i) as [hd|] eqn:En; [|reflexivity].
+  destruct (h_open hd) eqn:Eo; [|reflexivity].
+  apply (handle_clauses s i _ hd En Eo) in H. cbv beta in H. clauses H.
+  rewrite C. cbn [negb]. apply negb_true_iff in C0, C1, C2. rewrite C0, C1.
+  destruct (off >=? blen (n_data (get (heap s) (h_ino hd))))%Z eqn:Ee.
+  - rewrite andb_true_r in C2. rewrite C2. reflexivity.
+  - rewrite andb_false_r. reflexivity.
+Qed.
+Lemma refine_write : forall b s i p, E b s (Write i p) = true -> model_step b s (Write i p) = spec_raw s (Write i p).
+Proof.
+  intros b s i p H. apply E_clauses in H. cbn [corners] in H. cbn [model_step spec_raw].
+  unfold with_handle. destruct (nth_error (handles s) i) as [hd|] eqn:En; [|reflexivity].
+  destruct (h_open hd) eqn:Eo; [|reflexivity].
+  apply (handle_clauses s i _ hd En Eo) in H. cbv beta in H. clauses H.
+  rewrite C. cbn [negb]. apply negb_true_iff in C0. rewrite C0.
+  destruct (f_app (h_fl hd)).
+  - simpl in C1. apply Z.eqb_eq in C1. rewrite <- C1. rewrite C0. reflexivity.
+  - rewrite C0. reflexivity.
+Qed.
+Lemma refine_seek : forall b s i off wh, E b s (Seek i off wh) = true -> model_step b s (Seek i off wh) = spec_raw s (Seek i off wh).
+Proof.
+  intros b s i off wh H. apply E_clauses in H. cbn [corners] in H. cbn [model_step spec_raw].
+  unfold with_handle. destruct (nth_error (handles s) i) as [hd|] eqn:En; [|reflexivity].
+  destruct (h_open hd) eqn:Eo; [|reflexivity].
+  apply (handle_clauses s i _ hd En Eo) in H. cbv beta in H. clauses H. apply negb_true_iff in C.
+  destruct wh as [|[|[|wh]]]; try rewrite C; reflexivity.
+Qed.
+Lemma refine_close : forall b s i, E b s (Close i) = true -> model_step b s (Close i) = spec_raw s (Close i).
+Proof. reflexivity. Qed.
+
+(* ---- open ------------------------------------------------------------------------ *)
+Lemma get_upd_data_nil : forall h i, n_data (get (upd h i (set_data [])) i) = [].
+Proof.
+  unfold get. induction h as [|x h IH]; intros [|i]; simpl; try reflexivity. apply IH.
+Qed.
+
+Lemma open_agree : forall b s p fl perm,
+  Forall (fun x => fst x = true) (open_corner b (heap s) p fl perm) ->
+  m_open b s p fl perm = s_do_open s p fl perm.
+Proof.
+  intros b s p fl perm H. unfold open_corner in H. clauses H. apply opened_eqb_eq in C3.
+  unfold m_open, s_do_open. rewrite C3 in *. destruct (s_open (heap s) p fl perm) as [e|h i]; [reflexivity|].
+  unfold new_handle, s_new_handle. destruct (f_app fl); [|reflexivity].
+  destruct (f_trunc fl).
+  - rewrite get_upd_data_nil. reflexivity.
+  - simpl in C4. apply Nat.eqb_eq in C4. rewrite C4. reflexivity.
+Qed.
+Lemma refine_openfile : forall b s p fl perm, E b s (OpenFile p fl perm) = true ->
+  model_step b s (OpenFile p fl perm) = spec_raw s (OpenFile p fl perm).
+Proof. intros b s p fl perm H. apply E_clauses in H. cbn [corners] in H. cbn [model_step spec_raw]. apply open_agree, H. Qed.
+Lemma refine_create : forall b s p, E b s (Create p) = true -> model_step b s (Create p) = spec_raw s (Create p).
+Proof. intros b s p H. apply E_clauses in H. cbn [corners] in H. cbn [model_step spec_raw]. apply open_agree, H. Qed.
+Lemma refine_writefile : forall b s p bs perm, E b s (WriteFile p bs perm) = true ->
+  model_step b s (WriteFile p bs perm) = spec_raw s (WriteFile p bs perm).
+Proof.
+  intros b s p bs perm H. apply E_clauses in H. cbn [corners] in H. cbn [model_step spec_raw].
+  unfold open_corner in H. clauses H. apply opened_eqb_eq in C3. rewrite C3. reflexivity.
+Qed.
+Lemma refine_readfile : forall b s p, E b s (ReadFile p) = true -> model_step b s (ReadFile p) = spec_raw s (ReadFile p).
+Proof.
+  intros b s p H. apply E_clauses in H. cbn [corners] in H. cbn [model_step spec_raw].
+  unfold open_corner in H. clauses H. apply opened_eqb_eq in C3. rewrite C3.
+  unfold s_with_node. unfold s_node in *. unfold s_open. 
+  destruct (s_path (heap s) p true) as [st nm|st nm|e]; try reflexivity.
+  cbn [rdonly f_creat f_excl f_acc f_trunc andb orb].
+  apply negb_true_iff in C1. rewrite C1. reflexivity.
+Qed.
+
+(* ---- mkdir -p ---------------------------------------------------------------------- *)
+Lemma clean_path_not_empty : forall p, clean_path p = true -> path_eqb p [""] = false.
+Proof.
+  intros p H. destruct (path_eqb p [""]) eqn:Ep; [|reflexivity].
+  apply path_eqb_eq in Ep. subst p. vm_compute in H. discriminate.
+Qed.
+Lemma refine_mkdirall : forall b s p perm, E b s (MkdirAll p perm) = true ->
+  model_step b s (MkdirAll p perm) = spec_raw s (MkdirAll p perm).
+Proof.
+  intros b s p perm H. apply E_clauses in H. cbn [corners] in H. cbn [model_step spec_raw].
+  clauses H. apply mkdirall_eqb_eq in C2. rewrite (clean_path_not_empty p C). rewrite C2. reflexivity.
+Qed.
+
+Theorem refines_raw : forall b s o, E b s o = true -> model_step b s o = spec_raw s o.
+Proof.
+  intros b s o; destruct o.
+  - apply refine_mkdir. - apply refine_mkdirall. - apply refine_openfile. - apply refine_create.
+  - apply refine_read. - apply refine_readat. - apply refine_write. - apply refine_seek. - apply refine_close.
+  - apply refine_readfile. - apply refine_writefile. - apply refine_readdir. - apply refine_stat. - apply refine_lstat.
+  - apply refine_symlink. - apply refine_link. - apply refine_readlink. - apply refine_remove.
+  - apply refine_chmod. - apply refine_chown. - apply refine_chtimes. - apply refine_mknod. - apply refine_readnod.
+  - apply refine_setxattr. - apply refine_getxattr. - apply refine_removexattr. - apply refine_listxattrs.
+Qed.
+
+(* the model: a failing operation returns the state it was given (MkdirAll excepted) *)
+Ltac brk :=
+  repeat match goal with
+         | |- context [match ?x with _ => _ end] => destruct x eqn:?; cbn [fst snd is_failure] in *
+         end.
+Lemma model_fail_same : forall b s o, is_mkdirall o = false ->
+  is_failure (snd (model_step b s o)) = true -> fst (model_step b s o) = s.
+Proof.
+  intros b s o Hm. destruct o; try discriminate Hm; cbn [model_step];
+    unfold with_leaf, with_node, with_node_ne, with_handle, enter_new, m_open, new_handle;
+    brk; intro Hf; try reflexivity; try discriminate Hf.
+Qed.
+
+(* ---- the refinement ------------------------------------------------------------------ *)
+Theorem refines : forall b s o, E b s o = true -> model_step b s o = spec_step s o.
+Proof.
+  intros b s o H. unfold spec_step. rewrite <- (refines_raw b s o H).
+  destruct (model_step b s o) as [s' r] eqn:Em.
+  destruct (is_failure r && negb (is_mkdirall o)) eqn:Ef; [|reflexivity].
+  apply andb_true_iff in Ef. destruct Ef as [Ef Hm]. apply negb_true_iff in Hm.
+  pose proof (model_fail_same b s o Hm) as F. rewrite Em in F. cbn [fst snd] in F.
+  rewrite (F Ef). reflexivity.
+Qed.
+
+(* every step of the run lies inside the envelope *)
+Fixpoint run_in_E (b : backend) (s : st) (ops : list op) : bool :=
+  match ops with
+  | [] => true
+  | o :: ops' => E b s o && run_in_E b (fst (model_step b s o)) ops'
+  end.
+
+Theorem refines_run : forall b ops s, run_in_E b s ops = true -> model_run b s ops = spec_run s ops.
+Proof.
+  intros b. induction ops as [|o ops IH]; intros s H; [reflexivity|].
+  cbn [run_in_E] in H. apply andb_true_iff in H. destruct H as [H1 H2].
+  cbn [model_run spec_run]. rewrite <- (refines b s o H1).
+  destruct (model_step b s o) as [s1 r] eqn:Em. cbn [fst] in H2.
+  rewrite (IH s1 H2). reflexivity.
+Qed.
+
+Theorem model_failure_no_change : forall b s o s' r,
+  model_step b s o = (s', r) -> is_failure r = true -> is_mkdirall o = false -> s' = s.
+Proof.
+  intros b s o s' r H Hf Hm. pose proof (model_fail_same b s o Hm) as F. rewrite H in F. exact (F Hf).
+Qed.
